@@ -63,7 +63,14 @@ func runPathOnce(mach *xpath.Machine, failAt int, failPanic string) string {
 
 func runC02(c Case) string {
 	b, _ := hex.DecodeString(cstr(c, "hex"))
-	return runPathCase(string(b), cint(c, "failAt"), cstr(c, "panic"))
+	out := runPathCase(string(b), cint(c, "failAt"), cstr(c, "panic"))
+	if cstr(c, "mode") == "pair" && !strings.HasPrefix(out, "build:") {
+		// what the two paths ask the tree for; what the operator makes of the two values is C01's
+		if i := strings.Index(out, " => "); i >= 0 && !strings.Contains(out, "DIFFERS") {
+			out = "pair:" + out[:i]
+		}
+	}
+	return out
 }
 
 func genC02(r *Rng, tier string, n int, emit func(Case)) {
@@ -76,6 +83,17 @@ func genC02(r *Rng, tier string, n int, emit func(Case)) {
 		toks := exprTokens(r, p, 0, false)
 		text := spell(r, toks, r.Intn(3))
 		emit(Case{"k": "c02", "p": p, "text": text, "hex": hex.EncodeToString([]byte(text)), "failAt": 0, "fixroot": true})
+		if i%4 == 0 {
+			// two location paths in one expression: each asks for its own node, the first leaves nothing behind for the second
+			p2 := genPathExprAST(r, depth)
+			if i%8 == 0 {
+				p2 = map[string]any{"t": "path", "root": "rel", "steps": genSteps(r, 1+r.Intn(3), 1, depth, true)}
+			}
+			t1, t2 := spell(r, exprTokens(r, p, 0, false), r.Intn(2)), spell(r, exprTokens(r, p2, 0, false), r.Intn(2))
+			text := pick(r, []string{"%s = %s", "%s != %s", "concat(%s, %s)", "%s < %s", "%s + %s", "substring-before(%s, %s)"})
+			text = fmt.Sprintf(text, t1, t2)
+			emit(Case{"k": "c02", "mode": "pair", "p": p, "p2": p2, "text": text, "hex": hex.EncodeToString([]byte(text)), "failAt": 0, "fixroot": true})
+		}
 	}
 }
 
